@@ -817,7 +817,7 @@ theorem SGWF.addEdge {g : SG} (h : SGWF g) (a b : Nat) (w : Int) : SGWF (g.addEd
 theorem SGWF.step {g : SG} (h : SGWF g) (op : CsrM.Op) : SGWF (specStep g op).1 := by
   cases op with
   | addNode w => exact h
-  | clearEdges => exact ⟨by simp [specStep, SG.clearEdges], by intro _ k hk; simp [specStep, SG.clearEdges] at hk⟩
+  | clearEdges => exact ⟨by simp [specStep, AppendSpec.SG.clearEdges], by intro _ k hk; simp [specStep, AppendSpec.SG.clearEdges] at hk⟩
   | setWeight a w =>
     show SGWF (match g.setWeight a w with | some g' => (g', Out.unit) | none => (g, Out.panic)).1
     unfold SG.setWeight
